@@ -825,7 +825,10 @@ func generateClauses(L *Loaded, root *packages.Package, cf *ContractFile) (strin
 			}
 			if cl.Kind == "callsite" {
 				cp := *site
-				if ft := lookupTypeByShortName(root, cl.CallType); ft != nil {
+				if cl.CallType == "chansend" {
+					// arg0: the value sent; typed as the element type of the first channel field sent to — kept generic
+					cp.extra = map[string]types.Type{"arg0": types.NewInterfaceType(nil, nil)}
+				} else if ft := lookupTypeByShortName(root, cl.CallType); ft != nil {
 					fsig, ok := ft.Underlying().(*types.Signature)
 					if !ok {
 						return "", fmt.Errorf("verif_contracts.go:%d: callsite: %q is not a function type", cl.Line, cl.CallType)
